@@ -150,8 +150,8 @@ func wlScenariosRange(menu []wlItem, layouts []nodeLayout, queues []queueSetup, 
 					continue
 				}
 				w, ok := buildWLWorld(lay, qs, menu, pick)
-				if !ok {
-					continue
+				if !ok || oracle.Oversubscribed(w) {
+					continue // pods placed on a missing node / occupying pods that ask for more than a node has
 				}
 				tags := ""
 				for _, i := range pick {
